@@ -475,7 +475,7 @@ func check(cfg *genesis.GenesisConfig) (err error, panicv interface{}) {
 }
 
 var perturbKinds = []string{"balance+1", "balance-1", "supply+1", "supply-1", "pillar-amount", "fusion-amount", "undeclared-token",
-	"token-for-nobody", "swap-balance", "nil-section", "drop-block", "drop-balance-entry"}
+	"token-for-nobody", "swap-balance", "nil-section", "drop-block", "drop-balance-entry", "null-amount"}
 
 // perturb applies one single-entry perturbation in place. ok=false: not applicable to this
 // configuration. vacuous names the contract whose block is absent when the perturbation can only
@@ -622,7 +622,8 @@ func perturb(c *pbt.C, cfg *genesis.GenesisConfig, kind string) (descr string, o
 		}
 		return fmt.Sprintf("swap contract holds %v of %v (supply adjusted: %v)", amt, t.TokenStandard, adj), true, ""
 	case "nil-section":
-		switch s := c.OneOf("perturb.section", "GenesisBlocks", "TokenConfig", "PillarConfig", "SporkAddress", "PlasmaConfig", "SwapConfig"); s {
+		s := c.OneOf("perturb.section", "GenesisBlocks", "TokenConfig", "PillarConfig", "SporkAddress", "PlasmaConfig", "SwapConfig")
+		switch s {
 		case "GenesisBlocks":
 			cfg.GenesisBlocks = nil
 		case "TokenConfig":
@@ -638,7 +639,44 @@ func perturb(c *pbt.C, cfg *genesis.GenesisConfig, kind string) (descr string, o
 		default:
 			panic(s)
 		}
-		return "section set to nil", true, ""
+		return "section " + s + " set to nil", true, ""
+	case "null-amount":
+		// what a JSON file with a missing / null amount decodes to. Outside the stated property
+		// (observation only, see the caller).
+		switch s := c.OneOf("perturb.null", "balance", "supply", "pillar", "fusion", "swap"); s {
+		case "balance":
+			b, z, found := pickEntry(false)
+			if !found {
+				return "", false, ""
+			}
+			b.BalanceList[z] = nil
+			return fmt.Sprintf("null balance of %v in %v", b.Address, z), true, s
+		case "supply":
+			ts := cfg.TokenConfig.Tokens
+			ts[c.Pick("perturb.token", len(ts))].TotalSupply = nil
+			return "null TotalSupply", true, s
+		case "pillar":
+			l := cfg.PillarConfig.Pillars
+			if len(l) == 0 {
+				return "", false, ""
+			}
+			l[c.Pick("perturb.pillar", len(l))].Amount = nil
+			return "null pillar Amount", true, s
+		case "fusion":
+			l := cfg.PlasmaConfig.Fusions
+			if len(l) == 0 {
+				return "", false, ""
+			}
+			l[c.Pick("perturb.fusion", len(l))].Amount = nil
+			return "null fusion Amount", true, s
+		default:
+			l := cfg.SwapConfig.Entries
+			if len(l) == 0 {
+				return "", false, ""
+			}
+			l[c.Pick("perturb.swap", len(l))].Znn = nil
+			return "null swap Znn", true, s
+		}
 	}
 	panic("unknown perturbation " + kind)
 }
@@ -978,8 +1016,21 @@ func TestC20Validation(t *testing.T) {
 				c.Class("perturb-n/a:" + kind)
 				continue
 			}
-			c.Class("perturb:" + kind)
 			c.Step()
+			if kind == "null-amount" {
+				// not demanded by the property: recorded, never failed
+				err, pv := check(p)
+				out := "rejected"
+				if pv != nil {
+					out = "CheckGenesis-panics"
+				} else if err == nil {
+					out = "accepted"
+				}
+				c.Class("observation:null-" + vacuous + "-amount:" + out)
+				c.Note("observation %q -> %s", descr, out)
+				continue
+			}
+			c.Class("perturb:" + kind)
 			err, pv := check(p)
 			if pv != nil {
 				c.Failf("C20/check-panic", "CheckGenesis panicked on perturbation %q: %v", descr, pv)
@@ -1040,7 +1091,7 @@ func TestC20Validation(t *testing.T) {
 
 // ---- database mismatch ---------------------------------------------------------------------------
 
-var bKinds = []string{"same", "permuted", "json", "spork-address-only", "changed", "changed", "changed", "unrelated"}
+var bKinds = []string{"changed", "permuted", "unrelated", "json", "same", "spork-address-only", "changed", "changed"}
 
 func TestC20DatabaseMismatch(t *testing.T) {
 	sim.Silence()
